@@ -282,6 +282,9 @@ class Symex:
         self.occurrence = occurrence
         self.recursion_error = recursion_error  # exceeding max_depth is the analysed program's RecursionError
         self.normalize = normalize          # callable(term) -> term applied to results of symbolic arithmetic
+        # True: a name that is no local, module-level name, import or Python builtin is the analysed program's NameError
+        # (default: such a name is an external value)
+        self.strict_names = False
         self.inplace = False                # True while an augmented assignment is evaluated
         # obj_identity: abstract records (Obj) are concrete individuals - ``is``/``==``/``in`` between a record and
         # another record, None or a plain value are decided by identity instead of becoming symbolic atoms
@@ -745,6 +748,10 @@ class Symex:
                                          "frozenset", "Exception", "ValueError", "TypeError", "KeyError",
                                          "NotImplementedError", "RuntimeError", "IndexError", "AttributeError"):
             return Ext(name)
+        if self.strict_names:
+            import builtins
+            if not hasattr(builtins, name):
+                raise Raised("NameError", name, node)
         return Ext(name)
 
     def resolve_import(self, mod, origin, local):
